@@ -651,8 +651,692 @@ def run(ctx):
                     "scripted numpy RandomState subclass for standard_normal; Riccati gamma observed through a sys.setprofile return hook"]
 
 
+# ====================================================================== derived solvers: RBLQ, nnash, LQMarkov (oracle only)
+
+import json
+import time
+from fractions import Fraction
+
+import numpy as np
+
+# ------------------------------------------------------------------ tolerances
+# all relative: max|impl - expected| / (1 + max|expected|)   (calibrated, see __main__)
+TOL_RBLQ_METHODS = 1e-6      # robust_rule vs robust_rule_simple (simple stops at 1e-8 on P)
+TOL_RBLQ_FIXED_POINT = 1e-10 # robust Bellman residual of robust_rule's (F, K, P)
+TOL_RBLQ_OWN_ITER = 1e-8     # robust_rule's P vs own robust Bellman iteration (numpy) from P = 0
+TOL_RBLQ_THETA_LAST = 1e-5   # distance to ordinary LQ at the largest theta
+TOL_RBLQ_THETA_FLOOR = 1e-10  # below this the distance is rounding noise: no decrease required
+TOL_RBLQ_MAPS = 1e-7         # F_to_K / K_to_F at the robust solution
+TOL_NNASH = 3e-5             # nnash stops at 1e-8 on the change of F; slow sweeps leave up to 1e-6
+TOL_LQMARKOV = 1e-7          # Riccati system iterated to 1e-10
+THETA_GRID = (10 ** 3, 10 ** 5, 10 ** 7, 10 ** 9)   # multiples of the problem scale s
+SIMPLE_RATE_MAX = 0.9         # robust_rule_simple compared only if beta rho(A-BF+CK)^2 is below this
+NNASH_CLOSED_LOOP_MAX = 0.95  # nnash compared only if sqrt(beta)(A - B1F1 - B2F2) has radius below this
+# kinds that fail on the pinned tree because of genuine defects found while calibrating
+FINDING_KINDS = ("nnash_premature_stop",)
+
+WORST = {}   # kind -> worst observed/tolerance ratio seen in the last derived_checks run
+
+
+def _track(kind, ratio):
+    ratio = float(ratio)
+    if not (ratio == ratio):
+        ratio = float("inf")
+    if ratio > WORST.get(kind, 0.0):
+        WORST[kind] = ratio
+    return ratio
+
+
+# ------------------------------------------------------------------ small helpers
+def _f(M):
+    """Fraction matrix (list of lists) -> float ndarray (2-d)"""
+    return np.array([[float(x) for x in row] for row in M], dtype=float)
+
+
+def _rel(impl, expected):
+    impl = np.asarray(impl, dtype=float)
+    expected = np.asarray(expected, dtype=float)
+    if impl.shape != expected.shape:
+        return float("inf")
+    if impl.size == 0:
+        return 0.0
+    if not np.all(np.isfinite(impl)):
+        return float("inf")
+    return float(np.max(np.abs(impl - expected)) / (1.0 + np.max(np.abs(expected))))
+
+
+def _lst(x):
+    return np.asarray(x, dtype=float).tolist()
+
+
+def _fr(rng, bound, den):
+    return Fraction(rng.randint(-bound * den, bound * den), den)
+
+
+def _mat(rng, r, c, bound=1, dens=(1, 2, 4), zero_p=0.15):
+    out = []
+    for _ in range(r):
+        row = []
+        for _ in range(c):
+            if rng.random() < zero_p:
+                row.append(Fraction(0))
+            else:
+                row.append(_fr(rng, bound, rng.choice(dens)))
+        out.append(row)
+    return out
+
+
+def _mul(X, Y):
+    return [[sum((X[i][l] * Y[l][j] for l in range(len(Y))), Fraction(0)) for j in range(len(Y[0]))]
+            for i in range(len(X))]
+
+
+def _tr(X):
+    if not X:
+        return []
+    return [[X[i][j] for i in range(len(X))] for j in range(len(X[0]))]
+
+
+def _add_diag(X, e):
+    return [[X[i][j] + (e if i == j else 0) for j in range(len(X))] for i in range(len(X))]
+
+
+def _gram(rng, rows, n, bound=1, dens=(1, 2)):
+    """W'W with W rows x n (exact rational PSD matrix of rank <= rows)"""
+    if rows == 0:
+        return [[Fraction(0)] * n for _ in range(n)]
+    W = _mat(rng, rows, n, bound, dens, zero_p=0.1)
+    return _mul(_tr(W), W)
+
+
+def _spectral_radius(Af):
+    return float(np.max(np.abs(np.linalg.eigvals(Af)))) if Af.size else 0.0
+
+
+def _gen_A(rng, n, lo=0.3, hi=1.2):
+    """rational A whose spectral radius is (close to) a target drawn from [lo, hi]"""
+    if hi > 1 and rng.random() < 0.3:
+        lo = 1.0                               # make sure unstable A is well represented
+    target = lo + (hi - lo) * rng.random()
+    for _ in range(50):
+        M = _mat(rng, n, n, 2, (1, 2), zero_p=0.2)
+        rho = _spectral_radius(_f(M))
+        if rho > 0.2:
+            break
+    else:
+        M = [[Fraction(int(i == j)) for j in range(n)] for i in range(n)]
+        rho = 1.0
+    s = Fraction(target / rho).limit_denominator(16)
+    if s == 0:
+        s = Fraction(1, 16)
+    A = [[x * s for x in row] for row in M]
+    return A, _spectral_radius(_f(A))
+
+
+def _controllable(Af, Bf):
+    n = Af.shape[0]
+    blocks, X = [], Bf
+    for _ in range(n):
+        blocks.append(X)
+        X = Af @ X
+    sv = np.linalg.svd(np.hstack(blocks), compute_uv=False)
+    return sv[min(n, len(sv)) - 1] > 1e-3 * max(1.0, sv[0]) if len(sv) >= n else False
+
+
+def _gen_B(rng, A, n, k):
+    """generic rational B with (A, B) controllable; None when none is found for this A"""
+    Af = _f(A)
+    for _ in range(20):
+        B = _mat(rng, n, k, 1, (1, 2), zero_p=0.1)
+        if _controllable(Af, _f(B)):
+            return B
+    return None
+
+
+def _gen_AB(rng, n, ks, lo=0.3, hi=1.2):
+    """A with spectral radius in [lo, hi] and one controllable B per entry of ks"""
+    while True:
+        A, rho = _gen_A(rng, n, lo, hi)
+        Bs = [_gen_B(rng, A, n, k) for k in ks]
+        if all(B is not None for B in Bs):
+            return A, rho, Bs
+
+
+def _gen_cost(rng, n, k, rho, with_N, allow_singular=True):
+    """(Q, R, N, singular): joint cost [[R, N'], [N, Q]] = Z'Z + diag(0, eps I) is PSD;
+    R = W'W is singular sometimes (only for clearly stable A, where the PSD Riccati
+    solution is unique without a detectability assumption)."""
+    eps = rng.choice((Fraction(1, 2), Fraction(1), Fraction(2)))
+    singular = allow_singular and n >= 2 and rho < 0.9 and rng.random() < 0.35
+    rows = rng.randint(1, n - 1) if singular else n + rng.randint(0, 1)
+    W = _mat(rng, rows, n, 1, (1, 2), zero_p=0.1) if rows else []
+    V = _mat(rng, rows, k, 1, (1, 2), zero_p=0.1) if rows else []
+    if rows:
+        R = _mul(_tr(W), W)
+        Q = _add_diag(_mul(_tr(V), V), eps)
+        N = _mul(_tr(V), W)
+    else:
+        R = [[Fraction(0)] * n for _ in range(n)]
+        Q = _add_diag([[Fraction(0)] * k for _ in range(k)], eps)
+        N = [[Fraction(0)] * n for _ in range(k)]
+    if not with_N:
+        N = None
+        if rng.random() < 0.5:           # independent V when there is no cross term
+            Q = _add_diag(_gram(rng, k, k), eps)
+    if not singular:
+        Rf = _f(R)
+        eff = Rf if N is None else Rf - _f(N).T @ np.linalg.solve(_f(Q), _f(N))
+        if np.min(np.linalg.eigvalsh((eff + eff.T) / 2)) < 0.05:
+            R = _add_diag(R, Fraction(1, 4))
+    else:
+        singular = np.linalg.matrix_rank(_f(R)) < n
+    return Q, R, N, singular
+
+
+def _riccati_iter(Q, R, A, B, beta, N=None, iters=20000, tol=1e-13):
+    """own value iteration for the ordinary LQ Riccati equation (numpy), from P = 0"""
+    n = A.shape[0]
+    if N is None:
+        N = np.zeros((B.shape[1], n))
+    P = np.zeros((n, n))
+    for _ in range(iters):
+        S1 = Q + beta * B.T @ P @ B
+        S2 = beta * B.T @ P @ A + N
+        Pn = R - S2.T @ np.linalg.solve(S1, S2) + beta * A.T @ P @ A
+        Pn = (Pn + Pn.T) / 2
+        if not np.all(np.isfinite(Pn)) or np.max(np.abs(Pn)) > 1e9:
+            return None
+        if np.max(np.abs(Pn - P)) <= tol * (1 + np.max(np.abs(Pn))):
+            return Pn
+        P = Pn
+    return None
+
+
+def _robust_iter(Q, R, A, B, C, beta, theta, iters=20000, tol=1e-13):
+    """own iteration P <- B(D(P)) of the robust Bellman operator from P = 0 (numpy).
+    Returns the limit, or None when theta I - C'PC stops being positive definite, the
+    iterates blow up or the iteration does not settle (theta at or below the breakdown point)."""
+    n, j = A.shape[0], C.shape[1]
+    P = np.zeros((n, n))
+    for _ in range(iters):
+        T = theta * np.eye(j) - C.T @ P @ C
+        if np.min(np.linalg.eigvalsh((T + T.T) / 2)) <= 0:
+            return None
+        PC = P @ C
+        D = P + PC @ np.linalg.solve(T, PC.T)
+        S2 = beta * B.T @ D @ A
+        Pn = R - S2.T @ np.linalg.solve(Q + beta * B.T @ D @ B, S2) + beta * A.T @ D @ A
+        Pn = (Pn + Pn.T) / 2
+        if not np.all(np.isfinite(Pn)) or np.max(np.abs(Pn)) > 1e9:
+            return None
+        if np.max(np.abs(Pn - P)) <= tol * (1 + np.max(np.abs(Pn))):
+            return Pn
+        P = Pn
+    return None
+
+
+def _simple_iteration_rate(Q, R, A, B, C, beta, theta, P):
+    """spectral radius of the Jacobian (central differences, all n*n directions including the
+    non-symmetric ones) at P of the *unsymmetrised* map P -> B(D(P)) that robust_rule_simple
+    iterates.  robust_rule_simple can only be expected to stop near the solution when this is
+    well below 1: in the antisymmetric directions the map is E -> beta ((I-L)G)'E((I+L)G)-like and
+    can be expanding although the symmetric part contracts; rounding asymmetry then grows."""
+    n, j = A.shape[0], C.shape[1]
+
+    def f(X):
+        S1 = X @ C
+        D = X + S1 @ np.linalg.solve(theta * np.eye(j) - C.T @ S1, S1.T)
+        S2 = beta * B.T @ D @ A
+        return R - S2.T @ np.linalg.solve(Q + beta * B.T @ D @ B, S2) + beta * A.T @ D @ A
+
+    h = 1e-5 * max(1.0, float(np.max(np.abs(P))))
+    J = np.zeros((n * n, n * n))
+    for a in range(n):
+        for b in range(n):
+            E = np.zeros((n, n))
+            E[a, b] = h
+            J[:, a * n + b] = ((f(P + E) - f(P - E)) / (2 * h)).ravel()
+    return float(np.max(np.abs(np.linalg.eigvals(J))))
+
+
+_BETAS = (Fraction(1), Fraction(19, 20), Fraction(9, 10))
+
+
+def _gen_beta(rng, allow_one=True):
+    r = rng.random()
+    if r < 0.6:
+        b = rng.choice(_BETAS)
+    else:
+        b = Fraction(rng.randint(16, 40), 40)      # 0.4 .. 1.0
+    if b >= 1 and not allow_one:
+        b = Fraction(19, 20)
+    return b
+
+
+# ------------------------------------------------------------------ (a) RBLQ
+def _rblq_fixed_point_residual(Q, R, A, B, C, beta, theta, F, K, P):
+    """independent numpy evaluation of the robust Bellman fixed point; returns
+    (rel residual P, rel residual F, rel residual K, min eig of theta I - C'PC)"""
+    j = C.shape[1]
+    T = theta * np.eye(j) - C.T @ P @ C
+    mineig = float(np.min(np.linalg.eigvalsh((T + T.T) / 2)))
+    PC = P @ C
+    D = P + PC @ np.linalg.solve(T, PC.T)
+    BDA = beta * B.T @ D @ A
+    S = Q + beta * B.T @ D @ B
+    Fexp = np.linalg.solve(S, BDA)
+    Pexp = R - BDA.T @ Fexp + beta * A.T @ D @ A
+    Kexp = np.linalg.solve(T, PC.T @ (A - B @ Fexp))
+    return _rel(P, Pexp), _rel(F, Fexp), _rel(K, Kexp), mineig, Fexp, Kexp, Pexp
+
+
+def _check_rblq(ctx, qe, rng, idx):
+    n = rng.choice((1, 2, 2, 3, 3, 4))
+    k = rng.choice((1, 1, 2, 2, 3))
+    j = (1, 2, 1, 3)[idx % 4]
+    A, rho, (B,) = _gen_AB(rng, n, (k,))
+    Q, R, _, singular = _gen_cost(rng, n, k, rho, with_N=False)
+    while True:
+        C = _mat(rng, n, j, 1, (2, 4), zero_p=0.2)
+        if any(x != 0 for row in C for x in row):
+            break
+    beta = _gen_beta(rng)
+    Qf, Rf, Af, Bf, Cf, bf = _f(Q), _f(R), _f(A), _f(B), _f(C), float(beta)
+
+    # problem scale (own Riccati iteration, not quantecon): theta must exceed lambda_max(C'PC)
+    P0 = _riccati_iter(Qf, Rf, Af, Bf, bf)
+    if P0 is None:
+        ctx.count("rblq:skipped(ordinary LQ iteration did not settle)")
+        return
+    s = Fraction(max(1, int(np.ceil(np.max(np.linalg.eigvalsh(Cf.T @ P0 @ Cf))))))
+    mult = rng.choice((2, 5, 20, 100))
+    theta = s * mult
+    # a valid, well conditioned robust problem needs theta above the breakdown point: decided with the
+    # own iteration, keeping lambda_max(C'PC) <= 0.7 theta at the robust P and the worst-case closed loop
+    # sqrt(beta)(A - BF + CK) inside radius 0.95; theta is doubled until that holds
+    Pown = None
+    for _ in range(12):
+        Pown = _robust_iter(Qf, Rf, Af, Bf, Cf, bf, float(theta))
+        if Pown is not None:
+            lam = float(np.max(np.linalg.eigvalsh(Cf.T @ Pown @ Cf)))
+            if lam <= 0.7 * float(theta):
+                _fp = _rblq_fixed_point_residual(Qf, Rf, Af, Bf, Cf, bf, float(theta), Pown[:0], Pown[:0], Pown)
+                Fo, Ko = _fp[4], _fp[5]
+                rho_wc = _spectral_radius(np.sqrt(bf) * (Af - Bf @ Fo + Cf @ Ko))
+                if rho_wc <= 0.95:
+                    break
+        Pown = None
+        theta = theta * 2
+    if Pown is None:
+        ctx.count("rblq:no_valid_theta")
+        return
+    ratio = float(theta) / max(lam, 1e-300)
+    ctx.count("rblq:theta/lmax(C'PC)%s" % ("<3" if ratio < 3 else "<10" if ratio < 10 else "<100" if ratio < 100 else ">=100"))
+
+    ctx.count("rblq:n=%d,k=%d" % (n, k))
+    ctx.count("rblq:j=%d" % j)
+    ctx.count("rblq:beta=%s" % ("1" if beta == 1 else "<1"))
+    ctx.count("rblq:R=%s" % ("singular" if singular else "pd"))
+    ctx.count("rblq:rho(A)%s1" % ("<" if rho < 1 else ">="))
+    inp = {"fn": "RBLQ", "Q": Q, "R": R, "A": A, "B": B, "C": C, "beta": beta, "theta": theta}
+    ctx.case(("rblq", Q, R, A, B, C, beta, theta), nontrivial=True,
+             sample={"fn": "RBLQ", "n": n, "k": k, "j": j, "beta": beta, "theta": theta, "A": A})
+
+    def build(th):
+        return qe.RBLQ(Qf, Rf, Af, Bf, Cf, bf, float(th))
+
+    # ---- robust_rule at the main theta
+    try:
+        rb = build(theta)
+        F, K, P = rb.robust_rule()
+        F, K, P = np.asarray(F, float), np.asarray(K, float), np.asarray(P, float)
+    except Exception as e:          # noqa
+        ctx.fail("rblq_raises", "RBLQ.robust_rule raised %s: %s" % (type(e).__name__, e),
+                 dict(inp, fn="RBLQ.robust_rule"), repr(e), "a solution (F, K, P)")
+        return
+
+    # ---- independent fixed point check
+    rP, rF, rK, mineig, Fexp, Kexp, Pexp = _rblq_fixed_point_residual(Qf, Rf, Af, Bf, Cf, bf, float(theta), F, K, P)
+    if not mineig > 0:
+        ctx.count("rblq:breakdown")      # theta below the breakdown point: nothing is claimed
+        return
+    worst = max(rP, rF, rK)
+    down = _rel(P, Pown)
+    if _track("rblq_fixed_point(own iteration)", down / TOL_RBLQ_OWN_ITER) > 1:
+        ctx.fail("rblq_fixed_point",
+                 "robust_rule's P differs from the limit of the robust Bellman iteration from 0 (numpy): rel %.3g" % down,
+                 dict(inp, fn="RBLQ.robust_rule"), {"F": _lst(F), "K": _lst(K), "P": _lst(P)}, {"P": _lst(Pown)})
+    if _track("rblq_fixed_point", worst / TOL_RBLQ_FIXED_POINT) > 1:
+        ctx.fail("rblq_fixed_point",
+                 "robust_rule's (F,K,P) violates the robust Bellman fixed point: rel residuals P %.3g F %.3g K %.3g"
+                 % (rP, rF, rK), dict(inp, fn="RBLQ.robust_rule"),
+                 {"F": _lst(F), "K": _lst(K), "P": _lst(P)},
+                 {"F": _lst(Fexp), "K": _lst(Kexp), "P": _lst(Pexp)})
+
+    # ---- robust_rule_simple agrees (default tol; iteration cap lifted so that the stop is the tol).
+    # robust_rule_simple iterates the unsymmetrised map P -> B(D(P)).  On symmetric perturbations that
+    # map contracts at r_sym = beta rho(A-BF+CK)^2, but for unstable A it often *expands* antisymmetric
+    # ones (rate r_all > 1, computed independently below), so rounding asymmetry grows like r_all^N.
+    # The comparison is made only where the iteration reaches its 1e-8 stop (about N sweeps) long
+    # before that noise matters; elsewhere robust_rule_simple diverges or raises on the pinned tree.
+    r_sym = rho_wc ** 2
+    r_all = _simple_iteration_rate(Qf, Rf, Af, Bf, Cf, bf, float(theta), Pown)
+    scale = 1.0 + float(np.max(np.abs(Pown)))
+    sweeps = 20 + 1.5 * np.log(1e-8 / scale) / np.log(max(r_sym, 1e-3))
+    noise = 2e-16 * scale * max(r_all, 1.0) ** sweeps
+    stable = r_sym < SIMPLE_RATE_MAX and noise < 1e-10
+    ctx.count("rblq:simple_iteration=%s" % ("contracting" if r_all < 1 and stable else
+                                            "antisymmetric-expanding,compared" if stable else
+                                            "unstable or slow (methods check skipped)"))
+    Fs = None
+    if stable:
+        try:
+            Fs, Ks, Ps = rb.robust_rule_simple(max_iter=5000)
+        except Exception as e:          # noqa
+            ctx.fail("rblq_raises", "RBLQ.robust_rule_simple raised %s: %s" % (type(e).__name__, e),
+                     dict(inp, fn="RBLQ.robust_rule_simple"), repr(e), "a solution (F, K, P)")
+    if Fs is not None:
+        dF, dK, dP = _rel(Fs, F), _rel(Ks, K), _rel(Ps, P)
+        if _track("rblq_methods_disagree", max(dF, dK, dP) / TOL_RBLQ_METHODS) > 1:
+            ctx.fail("rblq_methods_disagree",
+                     "robust_rule and robust_rule_simple differ: rel F %.3g K %.3g P %.3g" % (dF, dK, dP),
+                     dict(inp, fn="RBLQ.robust_rule_simple"),
+                     {"F": _lst(Fs), "K": _lst(Ks), "P": _lst(Ps)},
+                     {"F": _lst(F), "K": _lst(K), "P": _lst(P)})
+
+    # ---- F_to_K and K_to_F are inverse maps at the robust solution
+    multishock = j >= 2
+    if multishock:
+        # RBLQ.F_to_K is not named by property C07; on the pinned tree it raises for j >= 2 shocks
+        # (scalar beta*theta used as the control-cost matrix of a j-control problem): recorded as an observation only
+        try:
+            K2, P2 = rb.F_to_K(F)
+            if max(_rel(np.asarray(K2, float), K), _rel(np.asarray(P2, float), P)) > TOL_RBLQ_MAPS:
+                ctx.count("observation:rblq_F_to_K_multishock_differs")
+            else:
+                ctx.count("observation:rblq_F_to_K_multishock_ok")
+        except Exception:          # noqa
+            ctx.count("observation:rblq_F_to_K_multishock_valueerror")
+    else:
+        kind = "rblq_F_K_maps"
+        try:
+            K2, P2 = rb.F_to_K(F)
+            K2, P2 = np.asarray(K2, float), np.asarray(P2, float)
+            dK, dP = _rel(K2, K), _rel(P2, P)
+            if _track(kind, max(dK, dP) / TOL_RBLQ_MAPS) > 1:
+                ctx.fail(kind, "F_to_K(F) differs from robust_rule's (K, P): rel K %.3g P %.3g" % (dK, dP),
+                         dict(inp, fn="RBLQ.F_to_K", F=_lst(F)), {"K": _lst(K2), "P": _lst(P2)},
+                         {"K": _lst(K), "P": _lst(P)})
+        except Exception as e:          # noqa
+            ctx.fail("rblq_raises", "RBLQ.F_to_K raised %s: %s (j=%d shocks)" % (type(e).__name__, e, j),
+                     dict(inp, fn="RBLQ.F_to_K", F=_lst(F)), repr(e), {"K": _lst(K), "P": _lst(P)})
+    try:
+        F2, P3 = rb.K_to_F(K)
+        F2, P3 = np.asarray(F2, float), np.asarray(P3, float)
+        dF, dP = _rel(F2, F), _rel(P3, P)
+        if _track("rblq_F_K_maps", max(dF, dP) / TOL_RBLQ_MAPS) > 1:
+            ctx.fail("rblq_F_K_maps", "K_to_F(K) differs from robust_rule's (F, P): rel F %.3g P %.3g" % (dF, dP),
+                     dict(inp, fn="RBLQ.K_to_F", K=_lst(K)), {"F": _lst(F2), "P": _lst(P3)},
+                     {"F": _lst(F), "P": _lst(P)})
+    except Exception as e:          # noqa
+        ctx.fail("rblq_raises", "RBLQ.K_to_F raised %s: %s" % (type(e).__name__, e),
+                 dict(inp, fn="RBLQ.K_to_F", K=_lst(K)), repr(e), {"F": _lst(F), "P": _lst(P)})
+
+    # ---- theta -> infinity: ordinary LQ (reference: LQ.stationary_values; P, F do not depend on C)
+    try:
+        if beta < 1:
+            lq = qe.LQ(Qf, Rf, Af, Bf, Cf, beta=bf)
+        else:
+            lq = qe.LQ(Qf, Rf, Af, Bf, beta=bf)      # LQ refuses C != 0 with beta = 1
+        Plq, Flq, _d = lq.stationary_values()
+        Plq, Flq = np.asarray(Plq, float), np.asarray(Flq, float)
+    except Exception as e:          # noqa
+        ctx.fail("rblq_raises", "reference LQ.stationary_values raised %s: %s" % (type(e).__name__, e),
+                 dict(inp, fn="LQ.stationary_values"), repr(e), "a solution (P, F, d)")
+        return
+    dists = []
+    for g in THETA_GRID:
+        th = s * g
+        try:
+            Fg, Kg, Pg = build(th).robust_rule()
+        except Exception as e:          # noqa
+            ctx.fail("rblq_raises", "RBLQ.robust_rule raised %s: %s at theta=%s" % (type(e).__name__, e, th),
+                     dict(inp, fn="RBLQ.robust_rule", theta=th), repr(e), "a solution (F, K, P)")
+            return
+        dists.append(max(_rel(Fg, Flq), _rel(Pg, Plq)))
+    bad = None
+    for i in range(1, len(dists)):
+        if dists[i] < TOL_RBLQ_THETA_FLOOR:
+            continue
+        ratio = dists[i] / dists[i - 1] if dists[i - 1] > 0 else float("inf")
+        if _track("rblq_theta_limit(decrease)", ratio) >= 1:
+            bad = "distance to LQ does not decrease from theta=%s to theta=%s" % (s * THETA_GRID[i - 1], s * THETA_GRID[i])
+    if _track("rblq_theta_limit(last)", dists[-1] / TOL_RBLQ_THETA_LAST) > 1:
+        bad = "distance to LQ at theta=%s is %.3g" % (s * THETA_GRID[-1], dists[-1])
+    if bad:
+        ctx.fail("rblq_theta_limit", bad + "; distances over theta grid %s: %s" % ([str(s * g) for g in THETA_GRID], dists),
+                 dict(inp, fn="RBLQ.robust_rule", theta_grid=[s * g for g in THETA_GRID]),
+                 {"distances": dists}, {"F": _lst(Flq), "P": _lst(Plq)})
+
+
+# ------------------------------------------------------------------ (b) nnash
+def _check_nnash(ctx, qe, rng, idx):
+    n = rng.choice((1, 2, 2, 3, 3))
+    k1 = rng.choice((1, 1, 2))
+    k2 = rng.choice((1, 1, 2))
+    cross = idx % 3 != 0
+    beta = _BETAS[(idx // 3) % 3]
+    # nnash stops as soon as F1, F2 do not move in one sweep.  When B_i'R_iA = 0 (the control
+    # reaches the costly states only after two periods) the first two sweeps both give the
+    # myopic rule and the routine stops there although P_i is still changing (see
+    # _probe_nnash_premature_stop).  The random games keep away from that structure.
+    while True:
+        A, rho, (B1, B2) = _gen_AB(rng, n, (k1, k2), 0.3, 1.1)
+        Q1, R1, _, sing1 = _gen_cost(rng, n, k1, rho, with_N=False)
+        Q2, R2, _, sing2 = _gen_cost(rng, n, k2, rho, with_N=False)
+        if (np.max(np.abs(_f(B1).T @ _f(R1) @ _f(A))) > 1e-9
+                and np.max(np.abs(_f(B2).T @ _f(R2) @ _f(A))) > 1e-9):
+            break
+        ctx.count("nnash:redrawn(delayed control)")
+    if cross:
+        sm = (4, 8)
+        S1 = [[x / 2 for x in row] for row in _gram(rng, k2, k2)]        # (k2, k2), PSD
+        S2 = [[x / 2 for x in row] for row in _gram(rng, k1, k1)]        # (k1, k1), PSD
+        W1 = _mat(rng, n, k1, 1, sm, zero_p=0.2)
+        W2 = _mat(rng, n, k2, 1, sm, zero_p=0.2)
+        M1 = _mat(rng, k2, k1, 1, sm, zero_p=0.1)
+        M2 = _mat(rng, k1, k2, 1, sm, zero_p=0.1)
+    else:
+        Z = lambda r, c: [[Fraction(0)] * c for _ in range(r)]           # noqa
+        S1, S2, W1, W2, M1, M2 = Z(k2, k2), Z(k1, k1), Z(n, k1), Z(n, k2), Z(k2, k1), Z(k1, k2)
+
+    mats = (A, B1, B2, R1, R2, Q1, Q2, S1, S2, W1, W2, M1, M2)
+    ctx.count("nnash:n=%d,k1=%d,k2=%d" % (n, k1, k2))
+    ctx.count("nnash:cross=%s" % ("yes" if cross else "no"))
+    ctx.count("nnash:beta=%s" % beta)
+    ctx.count("nnash:R=%s" % ("singular" if (sing1 or sing2) else "pd"))
+    ctx.count("nnash:rho(A)%s1" % ("<" if rho < 1 else ">="))
+    ctx.case(("nnash", beta) + mats, nontrivial=True,
+             sample={"fn": "nnash", "n": n, "k1": k1, "k2": k2, "beta": beta, "cross": cross, "A": A})
+    _nnash_solve_and_verify(ctx, qe, mats, beta, "nnash_best_response")
+
+
+_NNASH_NAMES = ("A", "B1", "B2", "R1", "R2", "Q1", "Q2", "S1", "S2", "W1", "W2", "M1", "M2")
+
+
+def _nnash_solve_and_verify(ctx, qe, mats, beta, kind):
+    """run nnash on the rational game `mats` and check each player's rule against the stationary
+    LQ best response to the other player's rule (reference: LQ.stationary_values)"""
+    inp = dict(zip(_NNASH_NAMES, mats))
+    inp.update({"fn": "nnash", "beta": beta})
+    if kind == "nnash_premature_stop":
+        inp["probe"] = "delayed_control"
+    fl = [_f(M) for M in mats]
+    Af, B1f, B2f, R1f, R2f, Q1f, Q2f, S1f, S2f, W1f, W2f, M1f, M2f = fl
+    bf = float(beta)
+    n, k1, k2 = Af.shape[0], B1f.shape[1], B2f.shape[1]
+    try:
+        F1, F2, P1, P2 = qe.nnash(Af, B1f, B2f, R1f, R2f, Q1f, Q2f, S1f, S2f, W1f, W2f, M1f, M2f, beta=bf)
+    except ValueError as e:          # (LinAlgError is a ValueError)
+        if "No convergence" in str(e):
+            ctx.count("nnash:noconv")
+            return
+        if "ingular" in str(e) or "infs or NaNs" in str(e):
+            ctx.count("nnash:diverged")      # the sweep is not a contraction: iterates blew up
+            return
+        ctx.fail("nnash_raises", "nnash raised ValueError: %s" % e, inp, repr(e), "an equilibrium (F1,F2,P1,P2)")
+        return
+    except Exception as e:          # noqa
+        ctx.fail("nnash_raises", "nnash raised %s: %s" % (type(e).__name__, e), inp, repr(e),
+                 "an equilibrium (F1,F2,P1,P2)")
+        return
+    F1, F2, P1, P2 = [np.asarray(x, float) for x in (F1, F2, P1, P2)]
+    if F1.shape != (k1, n) or F2.shape != (k2, n) or P1.shape != (n, n) or P2.shape != (n, n):
+        ctx.fail(kind, "wrong output shapes", inp,
+                 {"F1": _lst(F1), "F2": _lst(F2), "P1": _lst(P1), "P2": _lst(P2)}, "shapes (k1,n),(k2,n),(n,n),(n,n)")
+        return
+    ctx.count("nnash:converged")
+    # the stop is on the change of F in one sweep; with a slowly contracting equilibrium closed loop
+    # the distance to the limit is 1e-8 r/(1-r) with r near 1: nothing is claimed then
+    rho_cl = _spectral_radius(np.sqrt(bf) * (Af - B1f @ F1 - B2f @ F2))
+    if not rho_cl < NNASH_CLOSED_LOOP_MAX:
+        ctx.count("nnash:slow(closed loop radius >= %g, skipped)" % NNASH_CLOSED_LOOP_MAX)
+        return
+
+    for who, (Fo, Fi, Pi, Ri, Si, Qi, Bi, Bo, Wi, Mi) in (
+            ("1", (F2, F1, P1, R1f, S1f, Q1f, B1f, B2f, W1f, M1f)),
+            ("2", (F1, F2, P2, R2f, S2f, Q2f, B2f, B1f, W2f, M2f))):
+        Rbr = Ri + Fo.T @ Si @ Fo
+        Abr = Af - Bo @ Fo
+        Nbr = (Wi - Fo.T @ Mi).T
+        try:
+            Pbr, Fbr, _d = qe.LQ(Qi, Rbr, Abr, Bi, N=Nbr, beta=bf).stationary_values()
+        except Exception as e:          # noqa
+            ctx.fail("nnash_raises", "reference LQ.stationary_values for player %s's best response raised %s: %s"
+                     % (who, type(e).__name__, e),
+                     dict(inp, fn="LQ.stationary_values", F_other=_lst(Fo)), repr(e), "a solution (P, F, d)")
+            continue
+        dF, dP = _rel(Fi, Fbr), _rel(Pi, Pbr)
+        if _track(kind, max(dF, dP) / TOL_NNASH) > 1:
+            ctx.fail(kind,
+                     "player %s: (F,P) is not the stationary LQ best response to the other player's rule: rel F %.3g P %.3g"
+                     % (who, dF, dP), inp,
+                     {"F1": _lst(F1), "F2": _lst(F2), "P1": _lst(P1), "P2": _lst(P2)},
+                     {"player": who, "F": _lst(Fbr), "P": _lst(Pbr)})
+
+
+def _probe_nnash_premature_stop(ctx, qe):
+    """deterministic witness: both controls move x1 only, both players pay for x2 = (x1 + x2)/2 lagged.
+    Sweep 1 (P=0) and sweep 2 (P=R, B'R=0) both give F=0, so nnash returns F=0 after two sweeps,
+    although the stationary best response to F_other=0 is not 0."""
+    H = Fraction(1, 2)
+    Z = lambda r, c: [[Fraction(0)] * c for _ in range(r)]           # noqa
+    A = [[H, Fraction(0)], [H, H]]
+    B = [[Fraction(1)], [Fraction(0)]]
+    R = [[Fraction(0), Fraction(0)], [Fraction(0), Fraction(1)]]
+    Q = [[Fraction(1)]]
+    mats = (A, B, B, R, R, Q, Q, Z(1, 1), Z(1, 1), Z(2, 1), Z(2, 1), Z(1, 1), Z(1, 1))
+    beta = Fraction(19, 20)
+    ctx.count("nnash:probe=premature_stop")
+    ctx.case(("nnash", beta) + mats, nontrivial=True)
+    _nnash_solve_and_verify(ctx, qe, mats, beta, "nnash_premature_stop")
+
+
+# ------------------------------------------------------------------ (c) LQMarkov
+def _gen_Pi(rng, m):
+    rows = []
+    for _ in range(m):
+        while True:
+            w = [rng.choice((0, 1, 1, 2, 3, 5)) for _ in range(m)]
+            if sum(w) > 0:
+                break
+        rows.append([Fraction(x, sum(w)) for x in w])
+    return rows
+
+
+def _check_lqmarkov(ctx, qe, rng, idx):
+    m = (1, 2, 3)[idx % 3]
+    n = rng.choice((1, 2, 3, 4))
+    k = rng.choice((1, 2, 3))
+    with_N, with_C = ((True, True), (True, False), (False, True), (False, False), (True, True))[idx % 5]
+    beta = rng.choice((Fraction(19, 20), Fraction(9, 10), Fraction(4, 5), Fraction(1, 2),
+                       Fraction(rng.randint(20, 39), 40)))
+    A, rho, (B,) = _gen_AB(rng, n, (k,))
+    Q, R, N, singular = _gen_cost(rng, n, k, rho, with_N=with_N, allow_singular=not with_N)
+    jdim = rng.choice((1, 2))
+    C = _mat(rng, n, jdim, 1, (1, 2, 4), zero_p=0.2) if with_C else None
+    Pi = _gen_Pi(rng, m)
+    Qf, Rf, Af, Bf, bf = _f(Q), _f(R), _f(A), _f(B), float(beta)
+    Nf = _f(N) if with_N else None
+    Cf = _f(C) if with_C else None
+    Pif = _f(Pi)
+
+    inp = {"fn": "LQMarkov.stationary_values", "m": m, "Pi": Pi, "Q": Q, "R": R, "A": A, "B": B,
+           "C": C, "N": N, "beta": beta}
+    ctx.count("lqmarkov:m=%d" % m)
+    ctx.count("lqmarkov:n=%d,k=%d" % (n, k))
+    ctx.count("lqmarkov:N=%s,C=%s" % ("yes" if with_N else "no", "yes" if with_C else "no"))
+    ctx.count("lqmarkov:R=%s" % ("singular" if singular else "pd"))
+    ctx.count("lqmarkov:rho(A)%s1" % ("<" if rho < 1 else ">="))
+    ctx.case(("lqmarkov", m, Pi, Q, R, A, B, C, N, beta), nontrivial=True,
+             sample={"fn": "LQMarkov", "m": m, "n": n, "k": k, "beta": beta, "Pi": Pi, "N": N})
+
+    rep = lambda X: None if X is None else [X.copy() for _ in range(m)]     # noqa
+    try:
+        Ps, ds, Fs = qe.LQMarkov(Pif, rep(Qf), rep(Rf), rep(Af), rep(Bf), Cs=rep(Cf), Ns=rep(Nf),
+                                 beta=bf).stationary_values()
+    except ValueError as e:
+        if "Convergence failed" in str(e):
+            ctx.count("lqmarkov:noconv")
+            return
+        ctx.fail("lqmarkov_raises", "LQMarkov.stationary_values raised ValueError: %s" % e, inp, repr(e),
+                 "a solution (Ps, ds, Fs)")
+        return
+    except Exception as e:          # noqa
+        ctx.fail("lqmarkov_raises", "LQMarkov.stationary_values raised %s: %s" % (type(e).__name__, e), inp,
+                 repr(e), "a solution (Ps, ds, Fs)")
+        return
+    try:
+        P, F, d = qe.LQ(Qf, Rf, Af, Bf, C=Cf, N=Nf, beta=bf).stationary_values()
+    except Exception as e:          # noqa
+        ctx.fail("lqmarkov_raises", "reference LQ.stationary_values raised %s: %s" % (type(e).__name__, e),
+                 dict(inp, fn="LQ.stationary_values"), repr(e), "a solution (P, F, d)")
+        return
+    Ps, ds, Fs = np.asarray(Ps, float), np.asarray(ds, float), np.asarray(Fs, float)
+    if Ps.shape != (m, n, n) or Fs.shape != (m, k, n) or ds.shape != (m,):
+        ctx.fail("lqmarkov_identical_regimes", "wrong output shapes %s %s %s" % (Ps.shape, ds.shape, Fs.shape),
+                 inp, {"Ps": _lst(Ps), "ds": _lst(ds), "Fs": _lst(Fs)}, {"P": _lst(P), "F": _lst(F), "d": float(d)})
+        return
+    worst, where = 0.0, ""
+    for i in range(m):
+        for nm, got, exp in (("P", Ps[i], P), ("F", Fs[i], F), ("d", np.array([ds[i]]), np.array([float(d)]))):
+            r = _rel(got, exp)
+            if r >= worst:
+                worst, where = r, "%ss[%d]" % (nm, i)
+    if _track("lqmarkov_identical_regimes", worst / TOL_LQMARKOV) > 1:
+        ctx.fail("lqmarkov_identical_regimes",
+                 "identical regimes: %s differs from the LQ solution by %.3g (relative)" % (where, worst), inp,
+                 {"Ps": _lst(Ps), "ds": _lst(ds), "Fs": _lst(Fs)}, {"P": _lst(P), "F": _lst(F), "d": float(d)})
+
+
+# ------------------------------------------------------------------ entry point
 def derived_checks(ctx, thorough):
-    pass
+    import warnings
+    import quantecon as qe
+    WORST.clear()
+    rng = ctx.rng
+    scale = 4 if thorough else 1
+    with warnings.catch_warnings():
+        warnings.simplefilter("ignore")
+        with np.errstate(all="ignore"):
+            for i in range(12 * scale):
+                _check_rblq(ctx, qe, rng, i)
+            for i in range(25 * scale):
+                _check_nnash(ctx, qe, rng, i)
+            _probe_nnash_premature_stop(ctx, qe)   # known finding D17 (kind nnash_premature_stop, probe delayed_control)
+            for i in range(25 * scale):
+                _check_lqmarkov(ctx, qe, rng, i)
+    ctx.notes.append("derived solvers, largest observed/tolerance ratios: %s" % json.dumps({k_: (round(v, 6) if v == v and v != float("inf") else str(v)) for k_, v in WORST.items()}))
 
 
 def replay(data):
